@@ -6,6 +6,7 @@ import disklib as D
 import diskengine as E
 import tapelib as T
 import proc as P
+from common import cps, drv
 
 LEVEL_TEXT = ("Lean theorems (Props/C20.lean): the archive written by the model's create depends on the world only through the contents "
               "of the sources, not on verbosity nor on the archive path; list has no write effect, extract writes only under the "
@@ -27,7 +28,67 @@ def create(kind, d, arc, srcs, verbose):
     return D.dar(kind, ["-c"] + v + [arc, "--"] + srcs, cwd=d)
 
 
+def self_member(ctx, res):
+    """an archive holding a member that carries the archive's own name: extraction must leave the archive as it is
+    (reading modifies nothing), wherever the destination makes the member's path the archive's path"""
+    rng = ctx.rng
+    st = res.stream("self_member")
+    # (kind, archive path relative to the run directory, source names in order, the member that is named like the archive)
+    shapes = [("k7", "GAMES.K7", ["intro.bas", "games.k7", "after.dat"]), ("k7", "arc/TAPE.K7", ["tape.k7"]), ("k7", "A.K7", ["x.bin", "a.k7"]),
+              ("sd", "side0/DISK.SD", ["first.dat", "disk.sd"]), ("fd", "side0/IMG.FD", ["img.fd", "other.bin"]), ("fd", "side0/X.FD", ["x.fd"])]
+    for i in range(ctx.n(6, 60)):
+        kind, arc, names = shapes[i % len(shapes)]
+        # destinations: (label, argv for --into, cwd-relative?, does the member land on the archive?)
+        for lay in ("onto", "onto_dot", "onto_abs", "elsewhere"):
+            d = ctx.fresh_dir()
+            os.makedirs(os.path.join(d, os.path.dirname(arc)) if os.path.dirname(arc) else d, exist_ok=True)
+            files = [(n, T.content_for(rng, rng.choice([1, 200, 300, 2100]))) for n in names]
+            src = os.path.join(d, "src")
+            os.makedirs(src)
+            for n, c in files:
+                open(os.path.join(src, n), "wb").write(c)
+            create(kind, d, arc, [os.path.join("src", n) for n, _ in files], False)
+            shutil.rmtree(src)
+            apath = os.path.join(d, arc)
+            raw = open(apath, "rb").read()
+            adir = os.path.dirname(arc)
+            if kind == "k7":
+                # a tape member lands in the destination itself
+                into, a = {"onto": (None, arc), "onto_dot": ("./" + adir if adir else ".", arc), "onto_abs": (None, apath),
+                           "elsewhere": ("out", arc)}[lay]
+            else:
+                # a disk member lands in destination/sideN: the archive sits in side0/ of the run directory
+                into, a = {"onto": (".", arc), "onto_dot": ("side0/..", "./" + arc), "onto_abs": (d, apath), "elsewhere": ("out", arc)}[lay]
+            argv = ["-x"] + (["--into", into] if into is not None else []) + [a]
+            case = {"kind": kind, "archive": a, "into": into, "members": names, "layout": lay}
+            st.see(case, nontrivial=True)
+            os.utime(apath, ns=(10**18, 10**18))
+            before = P.tree(d)
+            status, out = (T.tar(argv, cwd=d) if kind == "k7" else D.dar(kind, argv, cwd=d))
+            after = P.tree(d)
+            if after.get(arc) != before.get(arc):
+                res.violate("self_member", "extract replaced the archive it was reading by one of its members", case,
+                            {"status": status, "archive_len_before": len(raw), "archive_len_after": None if after.get(arc) is None else len(after[arc][0])},
+                            {"clause": "read_only", "layout": lay, "kind": kind})
+            if lay == "elsewhere" and status != "ok0":
+                res.violate("self_member", "extract elsewhere failed", case, status, {"clause": "status"})
+            # the model on the same bytes: same status, and none of its writes is the archive
+            if kind == "k7":
+                mo = T.parse_outcome(drv([f"tape.extract q {cps(a)} {'~' if into is None else cps(into)} {raw.hex()}"])[0])
+            else:
+                blobs = D.Blobs(ctx)
+                mo = D.parse_disk_outcome(drv([D.model_extract(blobs, kind, False, a, into, raw)])[0])
+            if mo is not None:
+                st.compared += 1
+                wrote = sorted(k for k in after if after[k] is not None and before.get(k) != after[k])
+                mwrote = sorted(os.path.relpath(os.path.normpath(os.path.join(d, p)), d) for p, _ in mo["writes"])
+                if mo["status"] != status or (wrote != mwrote and after.get(arc) == before.get(arc)):
+                    res.disagree("self_member", case, {"status": mo["status"], "writes": mwrote}, {"status": status, "writes": wrote})
+            res.count(f"self_member:{kind}:{lay}:{status}")
+
+
 def run(ctx, res):
+    self_member(ctx, res)
     res.rule = ("source lists of C01/C02 x {run twice, quiet/verbose, cwd-relative / absolute / dotted-directory paths, target absent / "
                 "present with arbitrary old bytes}; archives x {list, extract} repeated; non-trivial = at least one file; distinct by case")
     rng = ctx.rng
